@@ -24,22 +24,31 @@ type hdNode struct {
 	handle bool
 	path   int // -1: no matcher
 	status int
+	isErr  bool // leaf `error <status>` instead of `respond <status>` (op cf only)
 	body   []*hdNode
 }
 
-func (p *parser) hdNodes(depth int) []*hdNode {
+func (p *parser) hdNodes(depth int) []*hdNode { return p.cfNodes(depth, false) }
+
+func (p *parser) cfNodes(depth int, errLeaves bool) []*hdNode {
 	ns := []*hdNode{}
 	for n := p.count(); n > 0 && !p.bad; n-- {
 		switch p.word() {
 		case "r":
 			ns = append(ns, &hdNode{status: p.nat()})
+		case "f":
+			if !errLeaves {
+				p.bad = true
+				return nil
+			}
+			ns = append(ns, &hdNode{status: p.nat(), isErr: true})
 		case "h":
 			pt := p.nat()
 			if pt > 6 || depth == 0 {
 				p.bad = true
 				return nil
 			}
-			ns = append(ns, &hdNode{handle: true, path: pt - 1, body: p.hdNodes(depth - 1)})
+			ns = append(ns, &hdNode{handle: true, path: pt - 1, body: p.cfNodes(depth-1, errLeaves)})
 		default:
 			p.bad = true
 		}
@@ -56,7 +65,11 @@ func hdBodyValid(ns []*hdNode) bool {
 	seen := map[int]bool{}
 	for i, n := range ns {
 		if !n.handle {
-			if n.status < 200 || n.status > 599 || i != len(ns)-1 {
+			lo := 200
+			if n.isErr {
+				lo = 400
+			}
+			if n.status < lo || n.status > 599 || i != len(ns)-1 {
 				return false
 			}
 			continue
@@ -83,7 +96,7 @@ func hdBodyValid(ns []*hdNode) bool {
 func hdCaddyfile(b *strings.Builder, ns []*hdNode, ind string) {
 	for _, n := range ns {
 		if !n.handle {
-			fmt.Fprintf(b, "%srespond %d\n", ind, n.status)
+			fmt.Fprintf(b, "%s%s %d\n", ind, map[bool]string{false: "respond", true: "error"}[n.isErr], n.status)
 			continue
 		}
 		if n.path >= 0 {
@@ -254,4 +267,268 @@ func (g *gen) hdLine() string {
 	var e enc
 	encHD(&e, g.hdBody(3))
 	return fmt.Sprintf("hd %d %s", g.rng.Intn(6), strings.Join(e.b, ","))
+}
+
+// ---------------------------------------------------------------- op cf: a whole site
+//
+//	cf <P> <nodes> <eblocks>     nodes as in hd plus the leaf `f ST` (= `error ST`);
+//	                             eblocks = B (A hexarg^A nodes)^B  (= `handle_errors <args> { nodes }`)
+
+type cfBlock struct {
+	args []string
+	body []*hdNode
+}
+
+// cfEval reads a body as written: 0 passed on, 1 answered with st, 2 failed with st.
+func cfEval(ns []*hdNode, p int) (kind, st int) {
+	taken := false
+	for _, n := range ns {
+		if !n.handle {
+			if n.isErr {
+				return 2, n.status
+			}
+			return 1, n.status
+		}
+		if taken || (n.path >= 0 && n.path != p) {
+			continue
+		}
+		taken = true
+		if k, st := cfEval(n.body, p); k != 0 {
+			return k, st
+		}
+	}
+	return 0, 0
+}
+
+func runCF(line string, f []string) (o core.Outcome) {
+	bad := core.Outcome{Impl: "bad-op", Tags: []string{"trivial", "malformed"}}
+	p, ok := natTok(f[1])
+	ps := &parser{toks: strings.Split(f[2], ",")}
+	ns := ps.cfNodes(3, true)
+	if !ok || ps.bad || ps.pos != len(ps.toks) || p >= 6 || !hdBodyValid(ns) {
+		return bad
+	}
+	pe := &parser{toks: strings.Split(f[3], ",")}
+	var blocks []cfBlock
+	for n := pe.count(); n > 0 && !pe.bad; n-- {
+		var b cfBlock
+		for a := pe.count(); a > 0 && !pe.bad; a-- {
+			arg, err := core.UnHex(pe.word())
+			if err != nil {
+				pe.bad = true
+			}
+			b.args = append(b.args, arg)
+		}
+		b.body = pe.cfNodes(3, true)
+		blocks = append(blocks, b)
+	}
+	if pe.bad || pe.pos != len(pe.toks) || len(blocks) > 3 {
+		return bad
+	}
+	unsafe := false
+	for _, b := range blocks {
+		if len(b.args) > 3 || !hdBodyValid(b.body) {
+			return bad
+		}
+		for _, a := range b.args {
+			unsafe = unsafe || !caddyfileSafe(a)
+		}
+	}
+	defer func() {
+		if r := recover(); r != nil {
+			o = core.Outcome{Impl: "panic", Tags: []string{"panic"},
+				Failures: []core.Failure{fail("impl-panic", fmt.Sprint("site adaptation or routing panicked: ", r))}}
+		}
+	}()
+	o.Tags = []string{"op:cf"}
+
+	// ---- the site read as written
+	verdictErr := false
+	type eb struct {
+		sel      heSel
+		body     []*hdNode
+		hasMatch bool
+		empty    bool
+	}
+	var ebs []eb
+	for _, b := range blocks {
+		sel, ok := parseHEArgs(b.args)
+		if !ok {
+			verdictErr = true
+			break
+		}
+		// what the adapter's block sort looks at: does the block have routes, does its first route carry a matcher
+		first := len(b.body) > 0 && b.body[0].handle && b.body[0].path >= 0
+		ebs = append(ebs, eb{sel, b.body, !sel.any || first, len(b.body) == 0})
+	}
+	for i := 1; i < len(ebs) && !verdictErr; i++ {
+		for j := i; j > 0; j-- {
+			a, b := ebs[j], ebs[j-1]
+			if a.empty || b.empty || (!a.hasMatch && b.hasMatch) {
+				break
+			}
+			ebs[j], ebs[j-1] = ebs[j-1], ebs[j]
+		}
+	}
+	want := "-"
+	if kind, st := cfEval(ns, p); kind == 1 {
+		want = strconv.Itoa(st)
+	} else if kind == 2 {
+		want = strconv.Itoa(st) // nobody handles it: the error's status
+		o.Tags = append(o.Tags, "cf:error-raised")
+		for _, b := range ebs {
+			if !b.sel.selects(st) {
+				continue
+			}
+			k2, st2 := cfEval(b.body, p)
+			if k2 == 1 {
+				want = strconv.Itoa(st2)
+				o.Tags = append(o.Tags, "cf:error-route-answers")
+			}
+			if k2 != 0 {
+				break // answered, or failed again: the first error's status
+			}
+		}
+	}
+
+	if unsafe {
+		o.Impl = "cf err"
+		return o
+	}
+	var b strings.Builder
+	b.WriteString(":8080 {\n")
+	hdCaddyfile(&b, ns, "\t")
+	for _, bl := range blocks {
+		b.WriteString("\thandle_errors")
+		for _, a := range bl.args {
+			b.WriteString(" " + a)
+		}
+		b.WriteString(" {\n")
+		hdCaddyfile(&b, bl.body, "\t\t")
+		b.WriteString("\t}\n")
+	}
+	b.WriteString("}\n")
+	out, _, err := caddyconfig.GetAdapter("caddyfile").Adapt([]byte(b.String()), map[string]any{"filename": "Caddyfile"})
+	if err != nil {
+		o.Impl = "cf err"
+		if !verdictErr {
+			o.Failures = append(o.Failures, fail("site:refused", "the adapter refuses the site: "+err.Error()))
+		}
+		return o
+	}
+	var top struct {
+		Apps map[string]json.RawMessage `json:"apps"`
+	}
+	if err := json.Unmarshal(out, &top); err != nil {
+		panic(err)
+	}
+	var shape struct {
+		Servers map[string]struct {
+			Routes []jsonRoute `json:"routes"`
+			Errors *struct {
+				Routes []jsonRoute `json:"routes"`
+			} `json:"errors"`
+		} `json:"servers"`
+	}
+	json.Unmarshal(top.Apps["http"], &shape)
+	var g1, g2 []string
+	st := "-"
+	if top.Apps["http"] != nil {
+		groupsPreorder(shape.Servers["srv0"].Routes, &g1)
+		if e := shape.Servers["srv0"].Errors; e != nil {
+			groupsPreorder(e.Routes, &g2)
+		}
+		bc, err := base()
+		if err != nil {
+			panic(err)
+		}
+		ctx, cancel := caddy.NewContext(bc)
+		defer cancel()
+		v, err := ctx.LoadModuleByID("http", top.Apps["http"])
+		if err != nil {
+			o.Impl = "cf unloadable"
+			o.Failures = append(o.Failures, fail("site:unloadable", "the adapted config does not load: "+err.Error()))
+			return o
+		}
+		w := &heWriter{h: http.Header{}}
+		v.(*caddyhttp.App).Servers["srv0"].ServeHTTP(w, httptest.NewRequest("GET", paths[p], nil))
+		if len(w.codes) > 0 {
+			var cs []string
+			for _, c := range w.codes {
+				cs = append(cs, strconv.Itoa(c))
+			}
+			st = strings.Join(cs, "+")
+		}
+	}
+	join := func(g []string) string {
+		if len(g) == 0 {
+			return "-"
+		}
+		return strings.Join(g, ",")
+	}
+	o.Impl = "cf s=" + st + " g=" + join(g1) + "|" + join(g2)
+	if verdictErr {
+		o.Failures = append(o.Failures, fail("site:accepted", "the adapter accepts status arguments it should refuse"))
+	} else if want != st {
+		o.Failures = append(o.Failures, fail("site:status",
+			fmt.Sprintf("%s is answered with %s, the Caddyfile says %s", paths[p], st, want)))
+	}
+	return o
+}
+
+func (g *gen) cfBody(depth int) []*hdNode {
+	ns := g.hdBody(depth)
+	// turn some respond leaves into error leaves
+	var walk func(ns []*hdNode)
+	walk = func(ns []*hdNode) {
+		for _, n := range ns {
+			if n.handle {
+				walk(n.body)
+			} else if g.rng.Chance(2, 5) {
+				n.isErr = true
+				n.status = []int{400, 403, 404, 410, 500, 503}[g.rng.Intn(6)]
+			}
+		}
+	}
+	walk(ns)
+	return ns
+}
+
+func encCF(e *enc, ns []*hdNode) {
+	e.n(len(ns))
+	for _, n := range ns {
+		switch {
+		case n.handle:
+			e.w("h")
+			e.n(n.path + 1)
+			encCF(e, n.body)
+		case n.isErr:
+			e.w("f")
+			e.n(n.status)
+		default:
+			e.w("r")
+			e.n(n.status)
+		}
+	}
+}
+
+func (g *gen) cfLine() string {
+	g.nextID = 0
+	var e1, e2 enc
+	encCF(&e1, g.cfBody(3))
+	nb := g.rng.Intn(4)
+	e2.n(nb)
+	for i := 0; i < nb; i++ {
+		na := g.rng.Intn(3)
+		e2.n(na)
+		for j := 0; j < na; j++ {
+			a := heArgs[g.rng.Intn(11)]
+			if g.rng.Chance(1, 15) {
+				a = heArgs[g.rng.Intn(len(heArgs))]
+			}
+			e2.w(core.Hex(a))
+		}
+		encCF(&e2, g.cfBody(2))
+	}
+	return fmt.Sprintf("cf %d %s %s", g.rng.Intn(6), strings.Join(e1.b, ","), strings.Join(e2.b, ","))
 }
